@@ -17,6 +17,7 @@ import ProfiVerif.Lemmas.ListenLearn
 import ProfiVerif.Lemmas.ListenNet
 import ProfiVerif.Lemmas.ColdStartDuo
 import ProfiVerif.Lemmas.ColdStartReply
+import ProfiVerif.Lemmas.ColdStartChain
 
 namespace PV.C06
 open PV
@@ -1103,7 +1104,7 @@ theorem cs2L : CS2 cfgR netL 0 1 { s := sL3, apps := [], online := true } { s :=
       fun a ha => by simp [sL5] at ha, h.app, fun a d ha => by simp [sL5] at ha, h.scripts, by simp [sL5]⟩
   exact ⟨⟨rfl, rfl, rfl, List.Pairwise.nil, (fun o ho => by cases ho), (fun o ho => by cases ho), (fun o ho => by cases ho),
       (fun o ho => by cases ho), by decide, by decide, rfl, rfl, rfl, hinv3, rfl, rfl, rfl, rfl, rfl⟩, ⟨0, rfl⟩, rfl, rfl, rfl, by decide, by decide, by decide, ⟨rfl, rfl, hinv5, rfl, rfl, ⟨0, rfl⟩, rfl⟩,
-    by decide, rfl⟩
+    by decide, rfl, ⟨rfl, rfl⟩, rfl⟩
 
 def evsT : List (Nat × Int) := [(0, 100), (1, 150), (0, 200), (1, 250), (0, 300), (1, 350), (0, 400), (1, 450), (0, 500), (1, 550), (0, 600), (1, 650), (0, 700), (1, 750), (0, 800), (1, 850), (0, 900), (1, 950), (0, 1000), (1, 1050), (0, 1100), (1, 1150), (0, 1200), (1, 1250), (0, 1300), (1, 1350), (0, 1400), (1, 1450), (0, 1500), (1, 1550), (0, 1600), (1, 1650), (0, 1700), (1, 1750), (0, 1800), (1, 1850), (0, 1900), (1, 1950), (0, 2000), (1, 2050), (0, 2100), (1, 2150), (0, 2200), (1, 2250), (0, 2300), (1, 2350), (0, 2400), (1, 2450), (0, 2500), (1, 2550), (0, 2600), (1, 2650), (0, 2700), (1, 2750), (0, 2800), (1, 2850), (0, 2900), (1, 2950), (0, 3000), (1, 3050), (0, 3100), (1, 3150), (0, 3200), (1, 3250), (0, 3300), (1, 3350), (0, 3400), (1, 3450), (0, 3500), (1, 3550), (0, 3600), (1, 3650), (0, 3700), (1, 3750), (0, 3800), (1, 3850), (0, 3900), (1, 3950), (0, 4000), (1, 4050), (0, 4100), (1, 4150), (0, 4200), (1, 4250), (0, 4300), (1, 4350), (0, 4400), (1, 4450), (0, 4500), (1, 4550), (0, 4600), (1, 4650), (0, 4700), (1, 4750), (0, 4800), (1, 4850), (0, 4900), (1, 4950), (0, 5000), (1, 5050), (0, 5100), (1, 5150), (0, 5200), (1, 5250), (0, 5300), (1, 5350), (0, 5400), (1, 5450), (0, 5500), (1, 5550), (0, 5600), (1, 5650), (0, 5700), (1, 5750), (0, 5800), (1, 5850), (0, 5900), (1, 5950)]
 
@@ -1116,8 +1117,8 @@ example : TwoRun 0 1 3 5 4800 4900 (cfgR.formTime 10) netL evsT :=
 /-! ## The first answered GAP request (cold start of two stations, phase (b'): request – pause – reply – reception) -/
 
 /-- **A GAP request to a listening station is answered "not ready" and the reply is received** (C02 / C12 on the
-bus, any lag).  Two station models on the byte-accurate bus.  Start (`HQ`, first alternative `HQ0`): the claimant `x`
-(address `aL`, `ClaimToken`, scanning) has just put the GAP request to the address `aH` of the listener `y` on the
+bus, any lag).  Two station models on the byte-accurate bus.  Start (`HQ`, first alternative `HQ0`): the requester `x`
+(address `aL`; in `ClaimToken`, scanning, or the token holder in `AwaitStatusResponse`; its view the one-station ring) has just put the GAP request to the address `aH` of the listener `y` on the
 bus at `r` and awaits the reply; the log is the lone transmitter's; `y` is in `ListenToken`, satisfies the listener
 condition `LLOkX` with the request among the transmissions it has not consumed yet (arbitrary lag), and will not be
 ready when it has heard everything up to the request (`hnr`; ready needs two complete rotations).  Every station is
@@ -1133,15 +1134,41 @@ its GAP scan (`HQ3`: both stations up to date with the log, whose last entry is 
 theorem gap_request_answered_not_ready (cfg : Cfg) (hok : cfg.Ok) (G : Nat) (hG : cfg.slot + 3 * cfg.P ≤ G) (x y : Nat)
     (r : Int) (r0 : TokenRing) (T : List Telegram) (aL aH : Nat) (hnr : (hearAll aL T r0).readyForRing = false)
     (evs : List (Nat × Int)) (n : Net) (stx sty : NetStation) (coll : Nat) (tl : Int)
-    (hq : HQ cfg G n x y stx sty r r0 T coll tl) (hN : n.stations.length = 2) (haL : stx.s.p.address = aL)
+    (hq : HQ cfg G n x y stx sty r r0 T .masterNotReady coll tl) (hN : n.stations.length = 2) (haL : stx.s.p.address = aL)
     (haH : sty.s.p.address = aH) (hs : SchedN cfg.P n tl evs) :
-    RplRun cfg x y aL aH (r + 2 * ((cfg.ce 5 : Nat) : Int) + (cfg.b33 : Nat) + 3 * (cfg.P : Nat)) n evs :=
-  reply_run hok G hG x y r r0 T aL aH hnr evs n stx sty coll tl hq hN haL haH hs
+    RplRun cfg x y aL aH .masterNotReady (r + 2 * ((cfg.ce 5 : Nat) : Int) + (cfg.b33 : Nat) + 3 * (cfg.P : Nat)) n evs :=
+  reply_run hok G hG x y r r0 T aL aH .masterNotReady (fun s hs' => listenReport_notReady s _ (by rw [hs']; exact hnr))
+    evs n stx sty coll tl hq hN haL haH hs
+
+/-- **A GAP request to a listening station that is READY is answered "master without token" and the station is
+adopted as next station** (C02 / C12 on the bus, any lag; the admission of a late joiner or of the second station of
+a cold start).  As `gap_request_answered_not_ready`, with the requester `x` either in `ClaimToken` (claim sweep) or —
+the regular case — the token holder in `AwaitStatusResponse` (`AwaitSt`), and the listener ready with the requester
+as its previous station when it has heard everything up to the request (`hrdy`).  Then (`RplRun` with report
+`masterWithoutToken`): the listener registers the request, waits 33 bit, sends the reply "master without token" in
+exactly one poll and goes to `ActiveIdle`, where it stays quiet; the requester's slot time never runs out; it
+consumes the reply exactly when it is complete, in whatever pieces it arrives, no later than
+`r + 2·⌈66 bit⌉ + bits 33 + 3P`, and ADOPTS the station: in its ring view the polled address is active and is the
+next station, and — the requester's view having been the one-station ring (`HQ0.view`) — its view is now the ring view
+of the TWO-station ring (`RingView M' aL` for the ascending list `M'` of the two addresses; `HQ3.last`, via
+`AbstractRing.viewOk_setNext`); its state is `PassToken` (token holder: it will pass the token to the new station after the
+synchronisation pause) resp. `ClaimToken(Scan)`.  The token pass to the new station and its first visit are not
+part of this theorem. -/
+theorem gap_request_answered_ready (cfg : Cfg) (hok : cfg.Ok) (G : Nat) (hG : cfg.slot + 3 * cfg.P ≤ G) (x y : Nat)
+    (r : Int) (r0 : TokenRing) (T : List Telegram) (aL aH : Nat)
+    (hrdy : (hearAll aL T r0).readyForRing = true ∧ (hearAll aL T r0).ps = aL)
+    (evs : List (Nat × Int)) (n : Net) (stx sty : NetStation) (coll : Nat) (tl : Int)
+    (hq : HQ cfg G n x y stx sty r r0 T .masterWithoutToken coll tl) (hN : n.stations.length = 2)
+    (haL : stx.s.p.address = aL) (haH : sty.s.p.address = aH) (hs : SchedN cfg.P n tl evs) :
+    RplRun cfg x y aL aH .masterWithoutToken (r + 2 * ((cfg.ce 5 : Nat) : Int) + (cfg.b33 : Nat) + 3 * (cfg.P : Nat)) n evs :=
+  reply_run hok G hG x y r r0 T aL aH .masterWithoutToken
+    (fun s hs' => by unfold StationGap.listenReport; rw [hs', hrdy.1, hrdy.2]; simp)
+    evs n stx sty coll tl hq hN haL haH hs
 
 /-! Non-vacuity: the request of station 3 to address 5 started at 1000 µs and has been registered by the listener at
 1150 µs (phase `HQ1`); both polled every 100 µs; the reply is sent at 1250 µs and consumed at 1400 µs. -/
 open PV.C13 in
-def sQ3 : Station := { (Station.new pR3) with online := true, st := .claimToken (.scanAwait 5), gap := .doPoll 5, lastBusActivity := some 1132 }
+def sQ3 : Station := { (Station.new pR3) with online := true, st := .claimToken (.scanAwait 5), gap := .doPoll 5, lastBusActivity := some 1132, ring := (TokenRing.new 3).claimToken }
 open PV.C13 in
 def sQ5 : Station := { (Station.new pR5) with online := true, st := .listenToken (some 3) 0, lastBusActivity := some 1150 }
 def nsQ3 : NetStation := { s := sQ3, apps := [], online := true }
@@ -1152,7 +1179,7 @@ open PV.C13 in
 theorem hq1Q : HQ1 cfgR netQ 0 1 nsQ3 nsQ5 1000 1150 0 1150 := by
   have hinv3 : Inv sQ3 [] := by
     have h := inv_new pR3 [] (by decide) (by decide) (by intro s hs; cases hs)
-    exact ⟨h.addr, h.hsa, h.ring, fun ho => by simp [sQ3] at ho, fun cur hc => by simp [sQ3] at hc; subst hc; decide,
+    exact ⟨h.addr, h.hsa, TokenRing.new_ok 3 (by decide), fun ho => by simp [sQ3] at ho, fun cur hc => by simp [sQ3] at hc; subst hc; decide,
       fun a ha => by simp [sQ3] at ha, fun a ha => by simp [sQ3] at ha; subst ha; exact ⟨rfl, by decide⟩, h.app,
       fun a d ha => by simp [sQ3] at ha, h.scripts, by simp [sQ3]⟩
   have hinv5 : Inv sQ5 [] := by
@@ -1162,7 +1189,7 @@ theorem hq1Q : HQ1 cfgR netQ 0 1 nsQ3 nsQ5 1000 1150 0 1150 := by
   have hce : cEnd cfgR (rqTx 0 3 5 1000) = 1132 := by rw [cEnd_rq]; decide
   have hpos : 0 < (rqTx 0 3 5 1000).bytes.length := by
     show 0 < (StationGap.statusRequestBytes 5 3).length; rw [StationGap.statusRequestBytes_length]; decide
-  refine ⟨?_, rfl, rfl, ?_, rfl, by decide, by decide, by decide, by decide, ?_, rfl, ?_, by decide⟩
+  refine ⟨?_, .inl rfl, rfl, ?_, rfl, by decide, by decide, by decide, by decide, ?_, rfl, ?_, by decide, viewOne⟩
   · exact ⟨rfl, rfl, rfl, List.pairwise_singleton _ _,
       (fun o ho => by simp only [netQ, List.mem_singleton] at ho; subst ho; rfl),
       (fun o ho => by simp only [netQ, List.mem_singleton] at ho; subst ho; exact hpos),
@@ -1181,9 +1208,101 @@ theorem hq1Q : HQ1 cfgR netQ 0 1 nsQ3 nsQ5 1000 1150 0 1150 := by
 def evsRp : List (Nat × Int) := [(0, 1200), (1, 1250), (0, 1300), (1, 1350), (0, 1400), (1, 1450), (0, 1500), (1, 1550)]
 
 open PV.C13 in
-example : RplRun cfgR 0 1 3 5 1630 netQ evsRp :=
+example : RplRun cfgR 0 1 3 5 .masterNotReady 1630 netQ evsRp :=
   gap_request_answered_not_ready cfgR cfgR_ok 1000 (by decide) 0 1 1000 (TokenRing.new 5) [] 3 5 (by decide) evsRp netQ nsQ3 nsQ5
     0 1150 (.inr (.inl ⟨1150, hq1Q, by decide⟩)) rfl rfl rfl
     (schedN_of_times _ _ _ _ (schedNT_of_b 100 2 evsRp [1140, 1150] 1150 (by decide)))
+
+/-! Non-vacuity of the ready variant: station 3 holds the token alone and awaits the status reply of address 5
+(`AwaitStatusResponse`, request started at 1000 µs); station 5 has witnessed three tokens of station 3 (ready, previous
+station 3) and registered the request at 1150 µs. -/
+def rdy5 : TokenRing := witnessK 3 3 (TokenRing.new 5)
+open PV.C13 in
+def sA3 : Station := { (Station.new pR3) with online := true, st := .awaitStatus 5, gap := .doPoll 5, lastBusActivity := some 1132, ring := (TokenRing.new 3).claimToken }
+open PV.C13 in
+def sR5 : Station := { (Station.new pR5) with online := true, st := .listenToken (some 3) 0, lastBusActivity := some 1150, ring := rdy5 }
+def nsA3 : NetStation := { s := sA3, apps := [], online := true }
+def nsR5 : NetStation := { s := sR5, apps := [], online := true }
+def netA : Net := { bus := { rate := 500000, txs := [rqTx 0 3 5 1000], seen := [1140, 1150] }, stations := [nsA3, nsR5] }
+
+open PV.C13 in
+theorem hq1A : HQ1 cfgR netA 0 1 nsA3 nsR5 1000 1150 0 1150 := by
+  have hinv3 : Inv sA3 [] := by
+    have h := inv_new pR3 [] (by decide) (by decide) (by intro s hs; cases hs)
+    exact ⟨h.addr, h.hsa, TokenRing.new_ok 3 (by decide), fun ho => by simp [sA3] at ho, fun cur hc => by simp [sA3] at hc; subst hc; decide,
+      fun a ha => by simp [sA3] at ha; subst ha; exact ⟨rfl, by decide⟩, fun a ha => by simp [sA3] at ha, h.app,
+      fun a d ha => by simp [sA3] at ha, h.scripts, by simp [sA3]⟩
+  have hinv5 : Inv sR5 [] := by
+    have h := inv_new pR5 [] (by decide) (by decide) (by intro s hs; cases hs)
+    exact ⟨h.addr, h.hsa,
+      (TokenRing.witness_ok _ 3 3 (TokenRing.witness_ok _ 3 3 (TokenRing.witness_ok _ 3 3 (TokenRing.new_ok 5 (by decide))).1).1).1,
+      fun ho => by simp [sR5] at ho, h.gap, fun a ha => by simp [sR5] at ha,
+      fun a ha => by simp [sR5] at ha, h.app, fun a d ha => by simp [sR5] at ha, h.scripts, by simp [sR5]⟩
+  have hce : cEnd cfgR (rqTx 0 3 5 1000) = 1132 := by rw [cEnd_rq]; decide
+  have hpos : 0 < (rqTx 0 3 5 1000).bytes.length := by
+    show 0 < (StationGap.statusRequestBytes 5 3).length; rw [StationGap.statusRequestBytes_length]; decide
+  refine ⟨?_, .inr rfl, rfl, ?_, rfl, by decide, by decide, by decide, by decide, ?_, rfl, ?_, by decide, viewOne⟩
+  · exact ⟨rfl, rfl, rfl, List.pairwise_singleton _ _,
+      (fun o ho => by simp only [netA, List.mem_singleton] at ho; subst ho; rfl),
+      (fun o ho => by simp only [netA, List.mem_singleton] at ho; subst ho; exact hpos),
+      (fun o ho => by simp only [netA, List.mem_singleton] at ho; subst ho; exact .inl rfl),
+      (fun o ho _ => by simp only [netA, List.mem_singleton] at ho; subst ho; rw [hce]; decide),
+      by decide, by decide, rfl, rfl, rfl, hinv3, rfl, rfl, rfl, rfl, rfl⟩
+  · exact ⟨rfl, rfl, rfl, List.pairwise_singleton _ _,
+      (fun o ho => by simp only [netA, List.mem_singleton] at ho; subst ho; rfl),
+      (fun o ho => by simp only [netA, List.mem_singleton] at ho; subst ho; exact hpos),
+      (fun o ho => by simp only [netA, List.mem_singleton] at ho; subst ho; right; rw [hce]; decide),
+      (fun o ho hs => by simp only [netA, List.mem_singleton] at ho; subst ho; cases hs),
+      by decide, by decide, rfl, rfl, rfl, hinv5, rfl, rfl, rfl, rfl, rfl⟩
+  · intro t ht; simp only [netA, List.mem_singleton] at ht; subst ht; rfl
+  · intro t ht; simp only [netA, List.mem_singleton] at ht; subst ht; decide
+
+open PV.C13 in
+example : RplRun cfgR 0 1 3 5 .masterWithoutToken 1630 netA evsRp :=
+  gap_request_answered_ready cfgR cfgR_ok 1000 (by decide) 0 1 1000 rdy5 [] 3 5 (by decide) evsRp netA nsA3 nsR5
+    0 1150 (.inr (.inl ⟨1150, hq1A, by decide⟩)) rfl rfl rfl
+    (schedN_of_times _ _ _ _ (schedNT_of_b 100 2 evsRp [1140, 1150] 1150 (by decide)))
+
+/-! ## Cold start of two stations up to the first answered GAP request (one theorem) -/
+
+/-- A fresh ring view (LAS uninitialised) is not ready before the third witnessed token of the lone holder. -/
+theorem fresh_listener_not_ready (aL : Nat) (haL : aL ≤ 125) (r : TokenRing) (hr : r.las = .uninitialized) (k : Nat)
+    (hk : k ≤ 2) : (witnessK aL k r).readyForRing = false :=
+  witnessK_notReady aL haL r hr k hk
+
+/-- **Cold start of two stations from silence to the first answered GAP poll** (C02 "the ring forms", phases
+(a1)–(a3) and the first request/reply handshake of (b), chained).  Hypotheses as in
+`two_station_cold_start_until_polled` (two station models on the byte-accurate bus, both online in `ListenToken`
+on a bus on which nothing has been transmitted, `CS2` — which now also states that the listener runs at the
+configured rate and that the claimant's pending-byte counter is 0 —, stagger
+`lx + Tto_x + P + ⌈11 bit⌉ < ly + Tto_y`, both polled at least every `P`, `Tslot + 3P ≤ G`,
+`G + ⌈11 bit⌉ + 2 ≤ Tto_y`, `P ≤ 100 ms`), plus: the listener's LAS is uninitialised (a fresh station).  Then
+(`TwoRun2`, `DuoRun2`, `RplRun`): every poll returns regularly; nobody transmits before `T = lx + Tto_x`; `x` claims
+at its first poll at or after `T` (≤ `T + P`); the listener never transmits while `x` sends its second token and the
+GAP requests to third addresses (each poll of `x` within `formTime` of the claim); when `x` sends the GAP request to
+the listener's address (at `r`), the listener — which has heard at most two tokens and is therefore NOT ready
+(`fresh_listener_not_ready`) — registers it, waits 33 bit and answers "not ready" in exactly one poll; `x` never
+runs into its slot time-out, receives the reply in whatever pieces it arrives no later than
+`r + 2·⌈66 bit⌉ + bits 33 + 3P`, does not admit the listener and goes on with its GAP scan, both stations up to date
+with the log (`HQ3`).  What follows — the rest of the sweep, the rotations of `x` alone, the "ready" reply and the
+admission — is not proved. -/
+theorem two_station_cold_start_first_poll_answered (cfg : Cfg) (hok : cfg.Ok) (hP100 : cfg.P ≤ 100000) (G : Nat)
+    (hG : cfg.slot + 3 * cfg.P ≤ G) (x y : Nat) (stx sty : NetStation) (lx ly : Int)
+    (hGy : G + cfg.ce 0 + 2 ≤ sty.s.p.tokenLostTimeout) (hne : stx.s.p.address ≠ sty.s.p.address)
+    (hsync : cfg.b33 < stx.s.p.tokenLostTimeout) (hr0 : sty.s.ring.las = .uninitialized)
+    (hv : RingView [stx.s.p.address] stx.s.p.address stx.s.ring.claimToken)
+    (hstag : lx + (stx.s.p.tokenLostTimeout : Nat) + (cfg.P : Nat) + ((cfg.ce 0 : Nat) : Int) < ly + (sty.s.p.tokenLostTimeout : Nat))
+    (evs : List (Nat × Int)) (n : Net) (tl : Int) (h : CS2 cfg n x y stx sty lx ly) (hN : n.stations.length = 2)
+    (hsx : n.bus.seen.getD x 0 < lx + (stx.s.p.tokenLostTimeout : Nat)) (hsy : n.bus.seen.getD y 0 ≤ tl)
+    (hs : SchedN cfg.P n tl evs) :
+    TwoRun2 cfg x y stx.s.p.address sty.s.p.address (lx + (stx.s.p.tokenLostTimeout : Nat))
+      (lx + (stx.s.p.tokenLostTimeout : Nat) + (cfg.P : Nat)) (cfg.formTime stx.s.p.hsa) n evs :=
+  two_cold_start2 hok hP100 G hG x y stx sty lx ly hGy hne hsync hr0 hv hstag evs n tl h hN hsx hsy hs
+
+open PV.C13 in
+example : TwoRun2 cfgR 0 1 3 5 4800 4900 (cfgR.formTime 10) netL evsT :=
+  two_station_cold_start_first_poll_answered cfgR cfgR_ok (by decide) 1000 (by decide) 0 1 { s := sL3, apps := [], online := true }
+    { s := sL5, apps := [], online := true } 0 50 (by decide) (by decide) (by decide) rfl viewOne (by decide) evsT netL 50 cs2L rfl
+    (by decide) (by decide) (schedN_of_times _ _ _ _ (schedNT_of_b 100 2 evsT [0, 50] 50 (by decide)))
 
 end PV.C06
